@@ -41,6 +41,7 @@ type Env struct {
 	HostSrc  *net.UDPAddr // underlay address of the (malicious) local host
 	SCMPAuth bool
 	ifs      map[int]IfCfg
+	ias      map[string]addr.IA // overrides of the class -> IA mapping (neighbour routers)
 }
 
 var (
@@ -65,8 +66,24 @@ func IAOf(class string) addr.IA {
 	return addr.MustParseIA("3-ff00:0:777")
 }
 
-// ClassOf is the inverse of IAOf.
+// IA maps an IA class to the concrete ISD-AS as seen from this router's AS.
+func (e *Env) IA(class string) addr.IA {
+	if ia, ok := e.ias[class]; ok {
+		return ia
+	}
+	if class == "L" {
+		return e.Local
+	}
+	return IAOf(class)
+}
+
+// ClassOf is the inverse of IA.
 func (e *Env) ClassOf(ia uint64) string {
+	for c, x := range e.ias {
+		if x == addr.IA(ia) {
+			return c
+		}
+	}
 	switch addr.IA(ia) {
 	case e.Local:
 		return "L"
@@ -74,7 +91,7 @@ func (e *Env) ClassOf(ia uint64) string {
 		return "F"
 	}
 	for _, i := range e.Cfg.Ifs {
-		if IAOf(i.Nbr) == addr.IA(ia) {
+		if e.IA(i.Nbr) == addr.IA(ia) {
 			return i.Nbr
 		}
 	}
@@ -114,8 +131,13 @@ func SiblingAddr(name string) string {
 // never started, so Link.IsUp() is false; the others run without BFD (always usable).
 // bfdAll: give every interface a session (C15 histories).
 func NewEnv(cfg Cfg, scmpAuth, bfdAll bool) (*Env, error) {
-	master := []byte("verif-master-key-0-of-the-local-as")
-	e := &Env{Cfg: cfg, Key: control.DeriveHFMacKey(master), Local: LocalIA, Far: FarIA,
+	return NewEnvFor(cfg, LocalIA, "verif-master-key-0-of-the-local-as", nil, scmpAuth, bfdAll)
+}
+
+// NewEnvFor builds a router of AS local (forwarding key derived from master); ias overrides the
+// class -> IA mapping (a neighbour's router sees the first router's AS as one of its neighbours).
+func NewEnvFor(cfg Cfg, local addr.IA, master string, ias map[string]addr.IA, scmpAuth, bfdAll bool) (*Env, error) {
+	e := &Env{Cfg: cfg, Key: control.DeriveHFMacKey([]byte(master)), Local: local, Far: FarIA, ias: ias,
 		RouterIP: netip.MustParseAddr("10.0.0.1"),
 		HostSrc:  &net.UDPAddr{IP: net.ParseIP("10.0.0.77").To4(), Port: 40077},
 		SCMPAuth: scmpAuth, ifs: map[int]IfCfg{}}
@@ -125,7 +147,7 @@ func NewEnv(cfg Cfg, scmpAuth, bfdAll bool) (*Env, error) {
 			RequiredMinRxInterval: time.Hour}}
 	for _, i := range cfg.Ifs {
 		e.ifs[i.ID] = i
-		vi := router.VerifIface{IfID: uint16(i.ID), LinkTo: linkType(i.Lt), Neighbor: IAOf(i.Nbr),
+		vi := router.VerifIface{IfID: uint16(i.ID), LinkTo: linkType(i.Lt), Neighbor: e.IA(i.Nbr),
 			Owned: i.Sc == "ext", BFD: !i.Up || bfdAll}
 		if vi.Owned {
 			vi.Local = fmt.Sprintf("192.168.%d.1:50000", i.ID)
